@@ -55,6 +55,13 @@ def iterator_pairing(ctx, W, cr, ev0):
             continue
         ch = chain[-1]
         base = W.expand(ch[2][0])
+        prefix = None
+        if isinstance(base, tuple) and base[0] == "index" and isinstance(base[2], tuple) and base[2][0] == "agg" and isinstance(base[1], tuple) and base[1][0] == "index":
+            # `levels[c][..n]`: the first n nodes of the children level
+            lab, ops = str(base[2][1]), base[2][2]
+            if lab.endswith("RangeTo::RangeTo") or (lab.endswith("Range::Range") and ops[0] == ("int", 0)):
+                prefix = ops[-1]
+                base = base[1]
         mp = [c for c in chain if callee_name(c[1]) == "map"][0]
         clo = mp[2][1]
         tk = [c for c in chain if callee_name(c[1]) == "take"]
@@ -76,7 +83,7 @@ def iterator_pairing(ctx, W, cr, ev0):
                 pair_ok = elem(ka[1]) == 0 and elem(ka[2]) == 1 and values.strip_payload(kev.ret()) == kev.call_term(hs[0])
                 detail = "hash_nodes(%s, %s) over %s" % (fmt(ka[1]), fmt(ka[2]), fmt(base))
         return {"pair_ok": pair_ok, "detail": detail, "chunks_bb": ch[3][1], "child_level": base[2] if isinstance(base, tuple) and base[0] == "index" else None,
-                "parent_level": tgt[2], "take_bb": tk[0][3][1] if tk else None}
+                "parent_level": tgt[2], "take_bb": tk[0][3][1] if tk else None, "prefix": prefix}
     return None
 
 
@@ -326,7 +333,14 @@ def count_tracks_level(ctx, W, cr, ev0, hash_bb, child_level, iter_form=None):
     okr = False
     if iter_form is not None:
         # no `take`: every chunk is consumed; `take(n)`: n must be the halved counter
-        if iter_form.get("take_bb") is None:
+        if iter_form.get("prefix") is not None:
+            # `levels[c][..n].chunks_exact(2)`: n must be the padded, not yet halved counter, and the halving (`counter = parents.len()`) comes after
+            cb_ = iter_form["chunks_bb"]
+            pa = evs.call_args(cb_)[0]
+            pa = W.expand(pa)
+            ptm = pa[2][2][-1] if isinstance(pa, tuple) and pa[0] == "index" and isinstance(pa[2], tuple) and pa[2][0] == "agg" else None
+            okr = ptm == SYM and len(halves) == 1 and cr.dominates(cb_, halves[0][0]) and iter_form.get("take_bb") is None
+        elif iter_form.get("take_bb") is None:
             okr = True
         else:
             tb = iter_form["take_bb"]
